@@ -186,7 +186,7 @@ func TestC20(t *testing.T) {
 		var feats []string
 		var diff int
 		var rich bool
-		lo := gen.LayoutOpts{Plain: gen.Pick(t, "plainpct", []int{30, 60, 85})}
+		lo := gen.LayoutOpts{Plain: gen.Pick(t, "plainpct", []int{30, 60, 85}), PHuge: 1}
 		if gen.Chance(t, 70, "astkind") {
 			c.Kind = "ast"
 			if o := ref.Run(p); o.Unspecified != "" {
@@ -222,9 +222,20 @@ func TestC20(t *testing.T) {
 				feats = append(feats, "mutation:"+m.Kind)
 			}
 			l1, l2 := gen.GenLayout(t, toks, lo), gen.GenLayout(t, toks, lo)
-			c.Src1, _ = renderChecked(toks, l1)
-			c.Src2, _ = renderChecked(toks, l2)
+			var pos1, pos2 []gen.TokPos
+			c.Src1, pos1 = renderChecked(toks, l1)
+			c.Src2, pos2 = renderChecked(toks, l2)
 			diff, rich = layoutDiff(l1, l2)
+			if len(toks) > 0 && gen.Chance(t, 30, "lexfault") {
+				// the same self-contained lexical fault in front of the same token of
+				// both renderings: the parse ends there, what was said before it
+				// must not depend on the layout
+				at := gen.Uniform(t, len(toks), "faultat")
+				frag := " " + gen.Pick(t, "faultfrag", []string{"@", "$", "?", "`", "~", "\x00"}) + " "
+				c.Src1 = c.Src1[:pos1[at].Start] + frag + c.Src1[pos1[at].Start:]
+				c.Src2 = c.Src2[:pos2[at].Start] + frag + c.Src2[pos2[at].Start:]
+				feats = append(feats, "lexical-fault-in-both")
+			}
 		}
 		if gen.Chance(t, 30, "viafile") {
 			_, c.Script2 = drawScript(t, len(c.Src2))
